@@ -1129,9 +1129,19 @@ pub fn check_shadow_vs_disk(ctx: &mut Ctx, rel: &str) {
 /// <= k), plus the at most one operation per thread that was in flight.
 fn durable_expectation(hist: &[OpRec], keys: &[Vec<u8>], k: u64) -> (Model, Vec<(usize, Option<Vec<u8>>)>) {
     let mut m = Model::new();
-    let mut inflight = Vec::new();
+    let mut inflight: Vec<(usize, Option<Vec<u8>>)> = Vec::new();
+    // operations that an injected fault made fail (`!ok`): they "may or may not have taken
+    // effect", so from their first record on their value is one more alternative for the key,
+    // until a later acknowledged operation on the same key has returned
+    let mut failed: Vec<(usize, Option<Vec<u8>>)> = Vec::new();
     for r in hist {
         if let Some((ki, v)) = &r.effect {
+            if !r.ok {
+                if r.first_seq <= k {
+                    failed.push((*ki, v.clone()));
+                }
+                continue;
+            }
             if r.last_seq <= k && r.last_seq >= r.first_seq {
                 match v {
                     Some(v) => {
@@ -1141,17 +1151,26 @@ fn durable_expectation(hist: &[OpRec], keys: &[Vec<u8>], k: u64) -> (Model, Vec<
                         m.remove(&keys[*ki]);
                     }
                 }
+                failed.retain(|(fk, _)| fk != ki);
             } else if r.first_seq <= k && k < r.last_seq {
                 inflight.push((*ki, v.clone()));
             }
         }
     }
+    inflight.extend(failed);
     (m, inflight)
 }
 
 /// Execute the main thread's operations without per-operation oracles (any failure without an
 /// injected fault is still a violation) and record which I/O records belong to which operation.
 fn exec_recorded(ctx: &mut Ctx, scn: &StoreScn, rel: &str) -> Option<(Vec<OpRec>, Option<Store>)> {
+    let r = exec_recorded_inner(ctx, scn, rel);
+    // the fault plan belongs to the workload; recoveries of images run without it
+    fsim::with_fs(ctx.sim, |fs| fs.fault = None);
+    r
+}
+
+fn exec_recorded_inner(ctx: &mut Ctx, scn: &StoreScn, rel: &str) -> Option<(Vec<OpRec>, Option<Store>)> {
     let cfg = scn.cfg.clone();
     let mut store = match open_store(ctx, rel, &cfg) {
         Ok(s) => Some(s),
@@ -1160,11 +1179,22 @@ fn exec_recorded(ctx: &mut Ctx, scn: &StoreScn, rel: &str) -> Option<(Vec<OpRec>
             return None;
         }
     };
+    // C03/C09 with an earlier failed call in the history: one transient failure (or a short
+    // episode) somewhere in the workload; the operation it hits may fail, everything else holds
+    if let Some((nth, errno, mode)) = scn.fault {
+        fsim::with_fs(ctx.sim, |fs| {
+            let base = fs.faultable_seen;
+            fs.fault = Some(fsim::FaultSpec { nth: base + nth, errno, mode: if mode & 0x0f == 1 { fsim::FailMode::ShortThenError } else { fsim::FailMode::Clean }, extra: ((mode >> 4) & 7) as u32, space_only: mode & 0x80 != 0 });
+        });
+    }
+    let errors_seen = |sim: &Sim| -> usize { fsim::with_fs(sim, |fs| fs.log.iter().filter(|r| r.injected && r.res < 0 && !r.what.ends_with("eintr")).count()) };
     let keys = &scn.keys;
     let mut hist = Vec::new();
     for (i, op) in scn.threads[0].iter().enumerate() {
         fsim::set_op_tag(tag_of(0, i));
         let first_seq = io_seq(ctx.sim) + 1;
+        let e0 = if scn.fault.is_some() { errors_seen(ctx.sim) } else { 0 };
+        let faulted = |ctx: &Ctx| scn.fault.is_some() && errors_seen(ctx.sim) > e0;
         let mut effect = None;
         let mut ok = true;
         let h = store.as_ref().unwrap().h.clone();
@@ -1173,6 +1203,11 @@ fn exec_recorded(ctx: &mut Ctx, scn: &StoreScn, rel: &str) -> Option<(Vec<OpRec>
                 let val = v.bytes();
                 match set(&h, &keys[*k], val.clone()) {
                     Ok(()) => effect = Some((*k, Some(val))),
+                    Err(_) if faulted(ctx) => {
+                        ok = false;
+                        effect = Some((*k, Some(val)));
+                        ctx.sim.probe("workload_op_failed_by_injected_fault");
+                    }
                     Err(e) => {
                         ok = false;
                         ctx.viol("op-failed", format!("op#{} set({}) returned {} with no fault injected", i, hex(&keys[*k]), e), "");
@@ -1181,6 +1216,11 @@ fn exec_recorded(ctx: &mut Ctx, scn: &StoreScn, rel: &str) -> Option<(Vec<OpRec>
             }
             Op::Del(k) => match del(&h, &keys[*k]) {
                 Ok(_) => effect = Some((*k, None)),
+                Err(_) if faulted(ctx) => {
+                    ok = false;
+                    effect = Some((*k, None));
+                    ctx.sim.probe("workload_op_failed_by_injected_fault");
+                }
                 Err(e) => {
                     ok = false;
                     ctx.viol("op-failed", format!("op#{} del({}) returned {} with no fault injected", i, hex(&keys[*k]), e), "");
@@ -1191,8 +1231,12 @@ fn exec_recorded(ctx: &mut Ctx, scn: &StoreScn, rel: &str) -> Option<(Vec<OpRec>
             }
             Op::Merge => {
                 if let Err(e) = merge(&h) {
-                    ok = false;
-                    ctx.viol("merge-failed", format!("op#{} merge returned {} with no fault injected", i, e), "");
+                    if faulted(ctx) {
+                        ctx.sim.probe("workload_merge_failed_by_injected_fault");
+                    } else {
+                        ok = false;
+                        ctx.viol("merge-failed", format!("op#{} merge returned {} with no fault injected", i, e), "");
+                    }
                 }
             }
             Op::Reopen(_) | Op::Retune(_) => {
@@ -1201,11 +1245,22 @@ fn exec_recorded(ctx: &mut Ctx, scn: &StoreScn, rel: &str) -> Option<(Vec<OpRec>
                 drop(old);
                 drop(h);
                 ctx.join_others();
-                match open_store(ctx, rel, &cfg) {
-                    Ok(s) => store = Some(s),
-                    Err(e) => {
-                        ctx.viol("open-failed", format!("op#{} reopen failed: {}", i, e), "");
-                        return None;
+                let mut tries = 0;
+                loop {
+                    let e1 = errors_seen(ctx.sim);
+                    match open_store(ctx, rel, &cfg) {
+                        Ok(s) => {
+                            store = Some(s);
+                            break;
+                        }
+                        Err(_) if scn.fault.is_some() && errors_seen(ctx.sim) > e1 && tries < 10 => {
+                            tries += 1;
+                            ctx.join_others();
+                        }
+                        Err(e) => {
+                            ctx.viol("open-failed", format!("op#{} reopen failed: {}", i, e), "");
+                            return None;
+                        }
                     }
                 }
                 let last_seq = io_seq(ctx.sim);
@@ -1363,6 +1418,9 @@ fn run_crash_concurrent(ctx: &mut Ctx, scn: &StoreScn, power: bool, rel: &str) {
 
 fn crash_enumerate(ctx: &mut Ctx, scn: &StoreScn, rel: &str, hist: Vec<OpRec>, last: u64, power: bool) {
     let rel = rel.to_string();
+    if std::env::var("BCSIM_DEBUG").is_ok() {
+        dump_io_log(ctx.sim);
+    }
     // freeze: from here on the workload directory's history is only read
     let keys = &scn.keys;
     let ops = &scn.threads[0];
